@@ -99,6 +99,16 @@ class Model(probe.Contract):
     def post(self, st, res, args, kwargs):
         c = core.ctx()
         check_returned(self.api, res)
+        # every bundled model is an operator / a coefficient tensor with closed ends: a train that is inconsistent or has an open boundary rank
+        # is not such an object whatever its entries are (decided here, so that the model-specific oracle is not run on something it cannot densify)
+        from .contracts_tt import _find_tts
+        from .dense import tt_consistent
+        for t_ in _find_tts([res], []):
+            ok_, why_ = tt_consistent(t_)
+            closed = ok_ and t_.ranks[0] == 1 and t_.ranks[-1] == 1
+            c.check(self.api, 'returns_consistent_train_with_closed_ends', bool(closed), ['model=' + self.name], {'ranks': list(getattr(t_, 'ranks', [])), 'why': why_} if not closed else None, prop=P)
+            if not closed:
+                return
         getattr(self, 'm_' + self.name)(c, res, args, kwargs)
 
     # ---- Markov generators
